@@ -325,6 +325,27 @@ def correspondence(ctx, summ):
                       {"kind": "named-route", "name": nm, "route": rt, "day_number": d, "date": calgen.fmt_date(d),
                        "no_failing_input": not bad,
                        "harness_cmd": "echo '%s' | harness/target/release/rlharness named" % hline("holn", nm, [d, 1, rt])})
+    # DIRECT TEST (implementation alone): a built-in calendar named on BOTH sides of the '|' ("nyc|nyc", "FED|fed", "tgt,nyc|nyc")
+    # has the holidays and business days of its business side - the same table, date for date
+    sub = [c for k, c in enumerate(cases) if k % 7 == 0]
+    both = run_harness("named", [hline("holn", "%s|%s" % (nm.upper() if k % 2 else nm, nm), [d0, cnt, 1]) for k, (nm, d0, cnt) in enumerate(sub)])
+    plain = run_harness("named", [hline("hol", nm, [d0, cnt]) for nm, d0, cnt in sub])
+    nrep2 = 0
+    for (nm, d0, cnt), a, b in zip(sub, both, plain):
+        ctx.evaluations += 2 * cnt
+        ctx.count("a name on both sides of '|' against the table itself", 2 * cnt)
+        if a != b and nrep2 < 3:
+            nrep2 += 1
+            days = list(range(d0, d0 + cnt))
+            sa = run_harness("named", [hline("holn", "%s|%s" % (nm, nm), [d, 1, 1]) for d in days])
+            sb = run_harness("named", [hline("hol", nm, [d, 1]) for d in days])
+            bad = [d for d, p, q in zip(days, sa, sb) if p != q]
+            d = bad[0] if bad else d0
+            ctx.violation("NamedCal::try_new(%r) on %s: is_holiday / is_bus_day differ from get_calendar_by_name(%r), whose table "
+                          "it names on both sides" % ("%s|%s" % (nm, nm), calgen.fmt_date(d), nm),
+                          {"kind": "named-both-sides", "name": "%s|%s" % (nm, nm), "single": nm, "day_number": d, "date": calgen.fmt_date(d),
+                           "no_failing_input": not bad, "direct_test": True,
+                           "harness_cmd": "echo '%s' | harness/target/release/rlharness named" % hline("holn", "%s|%s" % (nm, nm), [d, 1, 1])})
     # name resolution: documented names, wired names, and strings that must not resolve
     rng = ctx.rng
     probes = sorted(set(summ["doc_names"]) | set(names)) + ["", "TGT", "Tgt", "tgt ", " tgt", "tgt,ldn", "tgt|fed", "xyz", "ny", "nycc", "fe",
@@ -429,6 +450,12 @@ def replay(ctx, rp):
         print("replay get_calendar_by_name(%r): code %s, generated wiring %s" % (nm, a, b))
         ctx.cleanup()
         return 0 if a == b == [0] else 1
+    if rp.get("kind") == "named-both-sides":
+        a = run_harness("named", [hline("holn", nm, [d, 1, 1])])[0]
+        b = run_harness("named", [hline("hol", rp["single"], [d, 1])])[0]
+        print("replay %r against %r on %s: %s vs %s" % (nm, rp["single"], calgen.fmt_date(d), a, b))
+        ctx.cleanup()
+        return 0 if a == b else 1
     if rp.get("kind") == "named-route":
         a = run_harness("named", [hline("holn", nm, [d, 1, rp.get("route", 1)])])[0]
         b = coq_eval("Run.RunNamed", "runNamed", [[1] + enc(nm) + [d, 1]], ctx.work)[0]
